@@ -1995,6 +1995,12 @@ where
                     write,
                     schedule_prune,
                 } => {
+                    // The write holds the remote's sender: it is scheduled before the vote is looked at so
+                    // that, if the task stops here, the sender comes back for the final unlinked messages.
+                    streams.schedule_write(write.into_future());
+                    if let Some(remote_id) = schedule_prune {
+                        streams.schedule_prune(remote_id);
+                    }
                     if voted {
                         trace!(ATTEMPTING_RESCIND);
                         if stop_voter.rescind() == VoteResult::Unanimous {
@@ -2006,10 +2012,6 @@ where
                         }
                         streams.enable_timeout();
                         voted = false;
-                    }
-                    streams.schedule_write(write.into_future());
-                    if let Some(remote_id) = schedule_prune {
-                        streams.schedule_prune(remote_id);
                     }
                 }
                 TaskMessageResult::AddPruneTimeout(remote_id) => {
